@@ -343,7 +343,7 @@ func structural(f string, raw []byte, p *dec.Package, signed bool, hasScripts bo
 func c04(run *ev.Run, tier string) {
 	n := ncases(100, 1500, tier)
 	run.Rule = "cases = C01-style generated configurations, each built unsigned and (deb, rpm, apk) signed with the repository's unprotected test keys, all deb/rpm compressions round-robin; every output is parsed end to end by the harness readers (raw tar walker + archive/tar reader, ar, gzip member splitter, rpm lead/header/cpio, mtree) and every structural rule of the statement is asserted; deb output additionally goes through dpkg-deb -I/-c, xz/lzma payloads through the xz CLI. non-trivial = payload with >=1 directory, >=1 regular file and >=2 nesting levels; distinct = feature set x signed"
-	var archives, rules, dpkgRuns, xzRuns, tarRuns int64
+	var archives, rules, dpkgRuns, xzRuns, tarRuns, gzipRuns int64
 	haveTar := have("tar")
 	var mu sync.Mutex
 	perFormat := map[string]int64{}
@@ -414,6 +414,32 @@ func c04(run *ev.Run, tier string) {
 						}
 					}
 				}
+				// GNU gzip as an independent reader of every gzip layer
+				if have("gzip") && (tier == "thorough" || c.Index%3 == 0) {
+					var layers [][]byte
+					switch f {
+					case "deb":
+						layers = append(layers, p.CtrlRaw)
+						if p.DataAlgo == "gzip" {
+							layers = append(layers, p.DataRaw)
+						}
+					case "ipk":
+						layers = append(layers, b.raw[f], p.CtrlRaw, p.DataRaw)
+					case "apk":
+						layers = append(layers, b.raw[f])
+					case "archlinux":
+						layers = append(layers, p.MtreeRaw)
+					}
+					for li, l := range layers {
+						if l == nil {
+							continue
+						}
+						atomic.AddInt64(&gzipRuns, 1)
+						if _, se, code, err := runCmd(l, "", nil, "gzip", "-t"); err == nil && code != 0 {
+							ps = append(ps, problem{fmt.Sprintf("gzip-layer-%d/gnu-gzip-rejects", li), ev.Short(string(se), 200)})
+						}
+					}
+				}
 				// GNU tar as a reader that shares nothing with the writer
 				if haveTar && (tier == "thorough" || c.Index%3 == 0) {
 					switch f {
@@ -473,6 +499,7 @@ func c04(run *ev.Run, tier string) {
 	run.Set("dpkg_deb_runs", dpkgRuns)
 	run.Set("xz_cli_crosschecks", xzRuns)
 	run.Set("gnu_tar_reads", tarRuns)
+	run.Set("gnu_gzip_tests", gzipRuns)
 	run.Set("external_readers", map[string]bool{"dpkg-deb": haveDpkg, "xz": have("xz"), "GNU tar": haveTar})
 	run.Assume("rpm, cpio, zstd, bsdtar, apk and pacman CLIs are not installed: their formats are read by harness-owned parsers and by the decoder halves of the klauspost/ulikunitz libraries")
 }
